@@ -11,7 +11,7 @@
 (***************************************************************************)
 EXTENDS Naturals, Sequences, FiniteSets
 
-Letters == {"a", "A", "b", "e'", "E'"}
+Letters == {"a", "A", "b", "e'", "E'", "sp"}     \* "sp" = a blank: significant in needles and values
 
 FoldLetter(coll, x) ==
     CASE coll = "i;octet" -> x
